@@ -73,8 +73,10 @@ type World struct {
 	ExpectTSetOK bool
 	// LenientLedger: CheckLedgerProofs skips inputs the ledger does not hold
 	LenientLedger bool
-	// TxEra is the signature era (consensus replay prefix regime) a transaction was signed in
-	TxEra map[types.TransactionID]int
+	// TxEra is the signature era (consensus replay prefix regime) a v1 transaction was signed in.  The
+	// key covers the signatures: a transaction id does not, so two generators can produce the same
+	// v1 transaction id with signatures of different eras.
+	TxEra map[[32]byte]int
 }
 
 // Era mirrors consensus.State.replayPrefix for the test networks (ASIC and Foundation hardforks at
@@ -90,12 +92,13 @@ func (w *World) Era(height uint64) int {
 	return 0
 }
 
-func (w *World) eraOf(id types.TransactionID) int {
-	if e, ok := w.TxEra[id]; ok {
+func (w *World) eraOf(txn types.Transaction) int {
+	k := DigestV1([]types.Transaction{txn})
+	if e, ok := w.TxEra[k]; ok {
 		return e
 	}
 	e := w.Era(w.Node.CM.Tip().Height)
-	w.TxEra[id] = e
+	w.TxEra[k] = e
 	return e
 }
 
@@ -119,7 +122,7 @@ func NewWorld(r *vh.Run, rng *vh.RNG, name string, net *chainx.Net) *World {
 	w := &World{R: r, Rng: rng, Net: net, Tree: chainx.NewTree(net), Node: net.MustNode(),
 		txIDs: map[types.TransactionID]int{}, elemIDs: map[types.Hash256]int{}, info: map[int]*BlkInfo{},
 		decl: map[int]bool{}, Known: map[int]bool{0: true}, Applied: map[int]bool{0: true}, V1ByID: map[int]types.Transaction{}, V2ByID: map[int]types.V2Transaction{},
-		Stats: map[string]int{}, TxEra: map[types.TransactionID]int{}}
+		Stats: map[string]int{}, TxEra: map[[32]byte]int{}}
 	w.Led = chainx.LedgerOf(w.Node)
 	cs := w.Node.CM.TipState()
 	w.Filler = FillerWeight(cs)
@@ -219,7 +222,7 @@ func (w *World) DescV1(txn types.Transaction, ok bool) string {
 	id := w.Tx(txn.ID())
 	w.V1ByID[id] = txn
 	var sb strings.Builder
-	fmt.Fprintf(&sb, "%d %d %d %s %d %d", id, b01(ok), w.eraOf(txn.ID()), txn.TotalFees().ExactString(), cs.TransactionWeight(txn), len(txn.SiacoinInputs)+len(txn.SiafundInputs))
+	fmt.Fprintf(&sb, "%d %d %d %s %d %d", id, b01(ok), w.eraOf(txn), txn.TotalFees().ExactString(), cs.TransactionWeight(txn), len(txn.SiacoinInputs)+len(txn.SiafundInputs))
 	for _, in := range txn.SiacoinInputs {
 		fmt.Fprintf(&sb, " %d - 0", w.Elem(types.Hash256(in.ParentID)))
 	}
@@ -260,7 +263,7 @@ func (w *World) DescV2(txn types.V2Transaction, ok bool, acc *consensus.ElementA
 	id := w.Tx(txid)
 	w.V2ByID[id] = txn
 	var sb strings.Builder
-	fmt.Fprintf(&sb, "%d %d %d %s %d %d", id, b01(ok), w.eraOf(txid), txn.MinerFee.ExactString(), cs.V2TransactionWeight(txn), len(txn.SiacoinInputs)+len(txn.SiafundInputs))
+	fmt.Fprintf(&sb, "%d %d %d %s %d %d", id, b01(ok), 2, txn.MinerFee.ExactString(), cs.V2TransactionWeight(txn), len(txn.SiacoinInputs)+len(txn.SiafundInputs))
 	for _, in := range txn.SiacoinInputs {
 		fmt.Fprintf(&sb, " %d %s %d", w.Elem(types.Hash256(in.Parent.ID)), leafStr(in.Parent.StateElement.LeafIndex), b01(scBad(acc, in)))
 	}
@@ -377,13 +380,9 @@ func (w *World) Declare(id int) {
 	b := w.Tree.Blocks[id]
 	// transactions of a block were signed for the parent's state
 	for _, t := range bi.V1 {
-		if _, ok := w.TxEra[t.ID()]; !ok {
-			w.TxEra[t.ID()] = w.Era(b.Height - 1)
-		}
-	}
-	for _, t := range bi.V2 {
-		if _, ok := w.TxEra[t.ID()]; !ok {
-			w.TxEra[t.ID()] = w.Era(b.Height - 1)
+		k := DigestV1([]types.Transaction{t})
+		if _, ok := w.TxEra[k]; !ok {
+			w.TxEra[k] = w.Era(b.Height - 1)
 		}
 	}
 	var sb strings.Builder
